@@ -20,12 +20,12 @@ fn main() {
         run.finish();
     }
     run.assume("O1 (src/replay.rs) identifies activities by job id, task type, location and tag; multi-task jobs carry unique place tags");
-    run.assume("vicinity clustering, required breaks and recharge are outside this workload");
+    run.assume("tours with vicinity clustering (commute), required breaks (transit stops) or recharge stops are judged for conservation and special-stop matching only; their times are not replayed");
     run_end_to_end(&run, "C02");
     run.floor("solves judged by O1", run.evaluations(), run.by_tier(60, 400));
     run.floor("distinct non-trivial (problem shape, config shape) pairs", run.distinct_nontrivial(), 20);
     run.floor("solutions with unassigned jobs", run.observed("rule_binding", "conservation"), 5);
-    for f in ["pickup-delivery", "reloads", "breaks", "mixed-job"] {
+    for f in ["pickup-delivery", "reloads", "breaks", "mixed-job", "clustering", "recharge", "required-breaks"] {
         run.floor(&format!("feature '{f}' in workload"), run.observed("features", f), 3);
     }
     run.finish();
